@@ -136,7 +136,6 @@ func Load(repoDir string, overlay map[string][]byte) (*Program, error) {
 		p.Funcs = append(p.Funcs, fn)
 		p.FuncSet[fn] = true
 	}
-	sort.Slice(p.Funcs, func(i, j int) bool { return p.FuncName(p.Funcs[i]) < p.FuncName(p.Funcs[j]) })
 
 	for _, pkg := range p.Pkgs {
 		scope := pkg.Types.Scope()
@@ -148,6 +147,10 @@ func Load(repoDir string, overlay map[string][]byte) (*Program, error) {
 			}
 		}
 	}
+	CanonicalNotes = nil
+	p.computeTypeCanonical()
+	p.computeCanonical()
+	sort.Slice(p.Funcs, func(i, j int) bool { return p.FuncName(p.Funcs[i]) < p.FuncName(p.Funcs[j]) })
 	return p, nil
 }
 
@@ -157,7 +160,7 @@ func (p *Program) FuncName(fn *ssa.Function) string {
 	if fn == nil {
 		return "<nil>"
 	}
-	s := fn.String()
+	s := canonString(fn)
 	s = strings.ReplaceAll(s, ModulePath+"/internal/", "")
 	return s
 }
@@ -205,6 +208,17 @@ func (p *Program) InstrPos(in ssa.Instruction) string {
 // Func looks a function or method up by package path (relative to
 // grog/internal/, or "" for main), optional receiver type name, and name.
 func (p *Program) Func(pkgRel, recv, name string) *ssa.Function {
+	if fn := p.funcByName(pkgRel, recv, name); fn != nil {
+		return fn
+	}
+	path := ModulePath
+	if pkgRel != "" {
+		path = ModulePath + "/internal/" + pkgRel
+	}
+	return p.pinnedLookup(path, recv, name)
+}
+
+func (p *Program) funcByName(pkgRel, recv, name string) *ssa.Function {
 	path := ModulePath
 	if pkgRel != "" {
 		path = ModulePath + "/internal/" + pkgRel
@@ -217,6 +231,13 @@ func (p *Program) Func(pkgRel, recv, name string) *ssa.Function {
 		return sp.Func(name)
 	}
 	tn, ok := sp.Pkg.Scope().Lookup(recv).(*types.TypeName)
+	if !ok {
+		for cand, old := range typeCanon {
+			if old == recv && cand.Pkg() == sp.Pkg {
+				tn, ok = cand, true
+			}
+		}
+	}
 	if !ok {
 		return nil
 	}
@@ -259,6 +280,13 @@ func (p *Program) Type(pkgRel, name string) *types.Named {
 		return nil
 	}
 	tn, ok := pkg.Types.Scope().Lookup(name).(*types.TypeName)
+	if !ok {
+		for cand, old := range typeCanon {
+			if old == name && cand.Pkg().Path() == path {
+				tn, ok = cand, true
+			}
+		}
+	}
 	if !ok {
 		return nil
 	}
@@ -339,10 +367,14 @@ func NamedOf(t types.Type) *types.Named {
 func TypeKey(t types.Type) string {
 	if n := NamedOf(t); n != nil {
 		obj := n.Origin().Obj()
-		if obj.Pkg() != nil {
-			return strings.TrimPrefix(obj.Pkg().Path(), ModulePath+"/internal/") + "." + obj.Name()
+		name := obj.Name()
+		if o, ok := typeCanon[obj]; ok {
+			name = o
 		}
-		return obj.Name()
+		if obj.Pkg() != nil {
+			return strings.TrimPrefix(obj.Pkg().Path(), ModulePath+"/internal/") + "." + name
+		}
+		return name
 	}
 	return Deref(t).String()
 }
